@@ -56,7 +56,8 @@ def key_stage(ctx, binary, domains):
     summ = summ[0]
     ctx.cov["evaluations"] += len(cases)
     k1 = {mm.dumps(c["t"]): c["k1"] for c in cases}
-    groups = [[json.loads(t) if isinstance(t, str) else t for t in x["tuples"]] for x in recs if x.get("collision")]
+    groups = sorted(sorted([json.loads(t) if isinstance(t, str) else t for t in x["tuples"]], key=mm.dumps)
+                    for x in recs if x.get("collision"))
     return cases, summ, groups, k1
 
 
@@ -140,7 +141,7 @@ def run(ctx):
                                "domain and on the pair protocol" % (summ["equal_neither"], n, json.dumps(summ["first_neither"])))
     # model: corrected encoding injective (RoundTrip held for every tuple above); the deviation collides
     wit = vlib.open_finding(ctx.prop, DEV)
-    if DEV in devs:
+    if DEV in devs and ctx.thorough:     # key-level witness (quick relies on the operational counterexample below)
         small = mm.mc_module(TUPLES, BAD, alphabet=("a", "-", "\\"), keydomains=((2, 2),))
         vlib.expect_dev_counterexample(ctx, "MCMetric", mm.cfg("check", dev=True, invariants=["PairInjective"], init="KeyInitPair", next_="KeyNext"),
                                        DEV, extra_files={"MCMetric.tla": small})
@@ -177,7 +178,7 @@ def run(ctx):
                           "leave the corrected design exactly as the deviation predicts" % (
                               summ["collision_groups"], n, show(explained[0][0]) if explained else "-",
                               show(explained[0][1]) if explained else "-", json.dumps(w), len(gexpl)))
-    elif summ["collision_groups"]:
+    elif summ["collision_groups"] and not ctx.violations:
         raise vlib.InfraError("real key collisions found but no pair reproduced on a real metric")
     ctx.cov["distinct_nontrivial"] = sum(1 for c in cases if any(("-" in s or "\\" in s) for s in c["t"])) + len(groups)
     ctx.cov["exhaustive"] = True
